@@ -314,3 +314,41 @@ class PolyEnv:
         if isinstance(s, ast.Tuple):
             return ", ".join(self._slice(x) for x in s.elts)
         return self._arg(s)
+
+
+class RatEnv:
+    """Expressions -> rational functions (division handled exactly)."""
+
+    def __init__(self, names: dict[str, "Rat"] | None = None):
+        self.names = dict(names or {})
+        self._penv = PolyEnv()
+
+    def rat(self, e: ast.AST) -> Rat:
+        if isinstance(e, ast.Constant) and isinstance(e.value, (int, float)) and not isinstance(e.value, bool):
+            return Rat(Poly.const(Fraction(str(e.value))))
+        if isinstance(e, ast.Name):
+            return self.names.get(e.id, Rat.sym(e.id))
+        if isinstance(e, ast.Attribute):
+            d = dotted(e)
+            if d is not None:
+                return self.names.get(d, Rat.sym(d))
+        if isinstance(e, ast.UnaryOp) and isinstance(e.op, ast.USub):
+            return -self.rat(e.operand)
+        if isinstance(e, ast.UnaryOp) and isinstance(e.op, ast.UAdd):
+            return self.rat(e.operand)
+        if isinstance(e, ast.BinOp):
+            if isinstance(e.op, ast.Add):
+                return self.rat(e.left) + self.rat(e.right)
+            if isinstance(e.op, ast.Sub):
+                return self.rat(e.left) - self.rat(e.right)
+            if isinstance(e.op, ast.Mult):
+                return self.rat(e.left) * self.rat(e.right)
+            if isinstance(e.op, ast.Div):
+                return self.rat(e.left) / self.rat(e.right)
+            if isinstance(e.op, ast.Pow):
+                r = self.rat(e.right)
+                if r.d == Poly.const(1) and r.n.is_const() and r.n.const_value().denominator == 1 \
+                        and abs(r.n.const_value()) <= 8:
+                    return self.rat(e.left) ** int(r.n.const_value())
+        # opaque atom
+        return Rat.sym(self._penv.atom_name(e))
